@@ -12,23 +12,23 @@ package c03
 type kind string
 
 const (
-	kReg   kind = "reg"    // rN, N < 2^R          (name-equality loop over 2^R names)
-	kIn    kind = "in"     // iN, N < arch.N       (Process_input: name-equality loop)
-	kOut   kind = "out"    // oN, N < arch.M       (Process_output)
-	kImm   kind = "imm"    // number, Rsize bits   (Process_number + zeros_prefix(Rsize))
-	kImmS  kind = "imms"   // number, <s> bits of rsets<s>
-	kRom   kind = "rom"    // number, O bits       (ROM address / jump target)
-	kRam   kind = "ram"    // number, L bits       (RAM address)
-	kLoc   kind = "loc"    // number, mode-dependent location: ha→O, vn→L, hy→max(O,L)
-	kLocO  kind = "loco"   // as kLoc but the switch has no "vn" case: vn→O (default)
-	kNice  kind = "nice"   // number, 8 bits       (tsp nice value)
-	kVaddr kind = "vaddr"  // number, 8 bits, or Needed_bits(w*h) of the vtextmem box whose CP == arch.Tag
-	kCh    kind = "so:ch"  // ch<N>,    N < #"channel:" constraints (Process_shared)
-	kK     kind = "so:k"   // k<N>,     N < #"kbd:" constraints
+	kReg   kind = "reg"      // rN, N < 2^R          (name-equality loop over 2^R names)
+	kIn    kind = "in"       // iN, N < arch.N       (Process_input: name-equality loop)
+	kOut   kind = "out"      // oN, N < arch.M       (Process_output)
+	kImm   kind = "imm"      // number, Rsize bits   (Process_number + zeros_prefix(Rsize))
+	kImmS  kind = "imms"     // number, <s> bits of rsets<s>
+	kRom   kind = "rom"      // number, O bits       (ROM address / jump target)
+	kRam   kind = "ram"      // number, L bits       (RAM address)
+	kLoc   kind = "loc"      // number, mode-dependent location: ha→O, vn→L, hy→max(O,L)
+	kLocO  kind = "loco"     // as kLoc but the switch has no "vn" case: vn→O (default)
+	kNice  kind = "nice"     // number, 8 bits       (tsp nice value)
+	kVaddr kind = "vaddr"    // number, 8 bits, or Needed_bits(w*h) of the vtextmem box whose CP == arch.Tag
+	kCh    kind = "so:ch"    // ch<N>,    N < #"channel:" constraints (Process_shared)
+	kK     kind = "so:k"     // k<N>,     N < #"kbd:" constraints
 	kLfsr  kind = "so:lfsr8" // lfsr8<N>, N < #"lfsr8:" constraints
-	kQ     kind = "so:q"   // q<N>,     N < #"queue:" constraints
-	kSt    kind = "so:st"  // st<N>,    N < #"stack:" constraints
-	kU     kind = "so:u"   // u<N>,     N < #"uart:" constraints
+	kQ     kind = "so:q"     // q<N>,     N < #"queue:" constraints
+	kSt    kind = "so:st"    // st<N>,    N < #"stack:" constraints
+	kU     kind = "so:u"     // u<N>,     N < #"uart:" constraints
 )
 
 // soOf maps a shared-object operand kind to (constraint name, short name) —
@@ -123,32 +123,32 @@ var operandKinds = map[string]opRow{
 	"nop":  {kinds: none}, // op_nop.go:77
 
 	// ---- explicit stubs: "// TODO" Assembler that ignores words and emits zeros, "// TODO" Disassembler returning ""
-	"dpc": {kinds: none, stub: true},            // op_dpc.go:59
-	"hit": {kinds: []kind{kReg}, stub: true},    // op_hit.go:96 — show string promises "[R(Reg)] [barrier]", body is the stub
-	"je":  {kinds: none, stub: true},            // op_je.go:59
-	"r2s": {kinds: none, stub: true},            // op_r2s.go:114
-	"s2r": {kinds: none, stub: true},            // op_s2r.go:110
+	"dpc": {kinds: none, stub: true},         // op_dpc.go:59
+	"hit": {kinds: []kind{kReg}, stub: true}, // op_hit.go:96 — show string promises "[R(Reg)] [barrier]", body is the stub
+	"je":  {kinds: none, stub: true},         // op_je.go:59
+	"r2s": {kinds: none, stub: true},         // op_r2s.go:114
+	"s2r": {kinds: none, stub: true},         // op_s2r.go:110
 
 	// ---- register + port
-	"i2r":    {kinds: []kind{kReg, kIn}},       // op_i2r.go:144   Process_input(words[1], N), zeros_prefix(Inputs_bits)
-	"i2rw":   {kinds: []kind{kReg, kIn}},       // op_i2rw.go:150
-	"sic":    {kinds: []kind{kReg, kIn}},       // op_sic.go:120
-	"sicv3":  {kinds: []kind{kReg, kIn}},       // op_sicv3.go:172
-	"sicv2":  {kinds: []kind{kReg, kIn, kIn}},  // op_sicv2.go:184 — three words; show string lists one input
-	"cmpv":   {kinds: []kind{kIn}},             // op_cmpv.go:89
-	"r2o":    {kinds: []kind{kReg, kOut}},      // op_r2o.go:152   Process_output(words[1], M), zeros_prefix(Outputs_bits)
-	"r2owa":  {kinds: []kind{kReg, kOut}},      // op_r2owa.go:171
-	"r2owaa": {kinds: []kind{kReg, kOut}},      // op_r2owaa.go:173
+	"i2r":    {kinds: []kind{kReg, kIn}},      // op_i2r.go:144   Process_input(words[1], N), zeros_prefix(Inputs_bits)
+	"i2rw":   {kinds: []kind{kReg, kIn}},      // op_i2rw.go:150
+	"sic":    {kinds: []kind{kReg, kIn}},      // op_sic.go:120
+	"sicv3":  {kinds: []kind{kReg, kIn}},      // op_sicv3.go:172
+	"sicv2":  {kinds: []kind{kReg, kIn, kIn}}, // op_sicv2.go:184 — three words; show string lists one input
+	"cmpv":   {kinds: []kind{kIn}},            // op_cmpv.go:89
+	"r2o":    {kinds: []kind{kReg, kOut}},     // op_r2o.go:152   Process_output(words[1], M), zeros_prefix(Outputs_bits)
+	"r2owa":  {kinds: []kind{kReg, kOut}},     // op_r2owa.go:171
+	"r2owaa": {kinds: []kind{kReg, kOut}},     // op_r2owaa.go:173
 
 	// ---- jumps: Process_number + zeros_prefix(locationBits)
-	"j":     {kinds: []kind{kLoc}},  // op_j.go:114     switch Modes[0]: ha→O vn→L hy→max
-	"saj":   {kinds: []kind{kLoc}},  // op_saj.go:106
-	"jcmpl": {kinds: []kind{kLoc}},  // op_jcmpl.go:126
-	"ja":    {kinds: []kind{kLoc}},  // op_ja.go:111    no "ha" case: default O (same width as kLoc); length func returns 0 in ha
-	"jcmpa": {kinds: []kind{kLoc}},  // op_jcmpa.go:129 idem
-	"jo":    {kinds: []kind{kLocO}}, // op_jo.go:110    no "vn" case: default O; length func returns 0 in vn
-	"jcmpo": {kinds: []kind{kLocO}}, // op_jcmpo.go:128 idem
-	"jc":    {kinds: []kind{kRom}},  // op_jc.go:84     always O
+	"j":     {kinds: []kind{kLoc}},       // op_j.go:114     switch Modes[0]: ha→O vn→L hy→max
+	"saj":   {kinds: []kind{kLoc}},       // op_saj.go:106
+	"jcmpl": {kinds: []kind{kLoc}},       // op_jcmpl.go:126
+	"ja":    {kinds: []kind{kLoc}},       // op_ja.go:111    no "ha" case: default O (same width as kLoc); length func returns 0 in ha
+	"jcmpa": {kinds: []kind{kLoc}},       // op_jcmpa.go:129 idem
+	"jo":    {kinds: []kind{kLocO}},      // op_jo.go:110    no "vn" case: default O; length func returns 0 in vn
+	"jcmpo": {kinds: []kind{kLocO}},      // op_jcmpo.go:128 idem
+	"jc":    {kinds: []kind{kRom}},       // op_jc.go:84     always O
 	"jz":    {kinds: []kind{kReg, kRom}}, // op_jz.go:86
 	"jgt0f": {kinds: []kind{kReg, kRom}}, // op_jgt0f.go:76
 	"ro2r":  {kinds: []kind{kReg, kRom}}, // op_ro2r.go:95
@@ -159,8 +159,8 @@ var operandKinds = map[string]opRow{
 	"r2v": {kinds: []kind{kReg, kVaddr}}, // op_r2v.go:164  ramDepth 8, or Needed_bits(w*h) of the vtextmem box with box[0]==arch.Tag
 
 	// ---- immediates
-	"rset":  {kinds: []kind{kReg, kImm}},  // op_rset.go:82      zeros_prefix(Rsize)
-	"rsets": {kinds: []kind{kReg, kImmS}}, // dynop_rsets.go:76  zeros_prefix(op.s)          (family rsets<s>)
+	"rset":  {kinds: []kind{kReg, kImm}},        // op_rset.go:82      zeros_prefix(Rsize)
+	"rsets": {kinds: []kind{kReg, kImmS}},       // dynop_rsets.go:76  zeros_prefix(op.s)          (family rsets<s>)
 	"tsp":   {kinds: []kind{kReg, kLoc, kNice}}, // op_tsp.go:158 no padding loop, no unknown-register check
 
 	// ---- shared objects: Process_shared(shortname, words[1], Shared_num(name)), zeros_prefix(Shared_bits(name))
@@ -176,13 +176,13 @@ var operandKinds = map[string]opRow{
 	"u2r":     {kinds: []kind{kReg, kU}},    // op_u2r.go:129
 
 	// ---- dynamic families (keys are family names, see familyOf)
-	"callo":  {kinds: []kind{kRom}}, // dynop_call.go:225 OP_CALLO: O bits
-	"calla":  {kinds: []kind{kRam}}, // dynop_call.go:225 OP_CALLA: L bits
-	"ret":    {kinds: none},         // dynop_call.go:225 OP_RET: len(words)==0 enforced
-	"push":   {kinds: r1},           // dynop_stack.go:189
-	"pull":   {kinds: r1},           // dynop_stack.go:189
-	"fps":    {kinds: rr},           // dynop_fixed_point.go:131     (addfps/multfps/divfps<s>f<f>)
-	"fxps":   {kinds: rr},           // dynop_fxp.go:168             (addfxps/multfxps/divfxps<s>f<f>)
-	"lqs":    {kinds: rr},           // dynop_linear_quantizer.go:172 (addlqs/multlqs/divlqs<s>t<t>)
-	"flpe":   {kinds: rr},           // dynop_flopoco.go:154         (addflpe/multflpe/divflpe<e>f<f>)
+	"callo": {kinds: []kind{kRom}}, // dynop_call.go:225 OP_CALLO: O bits
+	"calla": {kinds: []kind{kRam}}, // dynop_call.go:225 OP_CALLA: L bits
+	"ret":   {kinds: none},         // dynop_call.go:225 OP_RET: len(words)==0 enforced
+	"push":  {kinds: r1},           // dynop_stack.go:189
+	"pull":  {kinds: r1},           // dynop_stack.go:189
+	"fps":   {kinds: rr},           // dynop_fixed_point.go:131     (addfps/multfps/divfps<s>f<f>)
+	"fxps":  {kinds: rr},           // dynop_fxp.go:168             (addfxps/multfxps/divfxps<s>f<f>)
+	"lqs":   {kinds: rr},           // dynop_linear_quantizer.go:172 (addlqs/multlqs/divlqs<s>t<t>)
+	"flpe":  {kinds: rr},           // dynop_flopoco.go:154         (addflpe/multflpe/divflpe<e>f<f>)
 }
